@@ -781,10 +781,15 @@ def run_excpoints(cfg, tape, want_trace=False):
         with fs:
             ctx = quiet(_P['Ctx']('ctx', ref=root))
             k0 = fs.nops
+            maybe = {}      # name -> key that a failed store may have bound
             for op in wl['ops']:
                 if name_conflict(ref, op):
                     continue
-                before = fault.fired if fault is not None else None
+                if op['kind'] in ('store', 'store_input', 'store_final') and \
+                        maybe.get(store_name(op), POOL[op['model']]['key']) != POOL[op['model']]['key']:
+                    # the name may already be bound to other content by the failed store:
+                    # re-using it is outside the contract (first binding wins)
+                    continue
                 try:
                     do_op(ctx, op, localfile)
                 except Exception as ex:
@@ -793,9 +798,10 @@ def run_excpoints(cfg, tape, want_trace=False):
                                f'{fmt_op(op)} raised {ex!r} without any fault')
                         return None
                     failed.append(op)
+                    if op['kind'] in ('store', 'store_input', 'store_final'):
+                        maybe[store_name(op)] = POOL[op['model']]['key']
                     trace.append(f'{fmt_op(op)} -> {type(ex).__name__}')
                     continue
-                del before
                 apply_ack(ref, op)
             if fs.bypass:
                 harness = f'unmodelled file-system mutation: {fs.bypass[:3]}'
